@@ -89,9 +89,15 @@ def theorems_of(files, pid):
     names = []
     for f in files:
         txt = open(os.path.join(LEAN, f)).read()
+        # drop block comments (incl. doc comments; nesting handled by repetition) and line comments
+        prev = None
+        while prev != txt:
+            prev = txt
+            txt = re.sub(r"/-(?:(?!/-|-/).)*-/", lambda m: "\n" * m.group(0).count("\n"), txt, flags=re.S)
+        txt = re.sub(r"--.*", "", txt)
         ns = None
         for line in txt.splitlines():
-            m = re.match(r"\s*namespace\s+(\S+)", line)
+            m = re.match(r"namespace\s+(\S+)", line)
             if m:
                 ns = m.group(1)
             m = re.match(r"\s*(?:private\s+)?theorem\s+(" + pid + r"_\w+)", line)
@@ -170,10 +176,26 @@ def run_stream(pid, cfg, seed, n, tier, workdir, replay=None):
     if replay:
         cmd += ["-replay", replay]
     env = dict(os.environ, GOMEMLIMIT=cfg.get("gomemlimit", "8GiB"))
+    # a quick stream takes about a minute on the unchanged tree; one that needs more than
+    # 15 minutes (thorough: 60) means the real code hangs or spins where no per-op watchdog sits
+    tmo = cfg.get("harness_timeout", 900 if tier == "quick" else 3600)
     try:
-        r = run(cmd, env=env, timeout=cfg.get("harness_timeout", 3000))
+        r = run(cmd, env=env, timeout=tmo)
     except subprocess.TimeoutExpired:
-        return dict(error="harness timed out", report=None, diffs=[], lines=0)
+        ops = []
+        try:
+            ops = open(os.path.join(workdir, "ops.txt")).read().split("\n")[:-1]
+        except OSError:
+            pass
+        rp = cfg.get("reset_prefixes")
+        start = max(0, len(ops) - 5)
+        if rp and ops:
+            start = len(ops) - 1
+            while start > 0 and not any(ops[start].startswith(p) for p in rp):
+                start -= 1
+        crash = dict(msg=f"hang: the harness process did not finish within {tmo}s", ops=ops[start:],
+                     stack=["the ops are those written before the process was killed (buffered: the op being executed may be a later one)"])
+        return dict(error="harness timed out", report=None, diffs=[], lines=0, crash=crash)
     if r.returncode != 0 or not os.path.exists(os.path.join(workdir, "oracle.json")):
         crash = None
         m = re.search(r"^(panic: .*|fatal error: .*|SIGSEGV.*|unexpected signal.*)$", r.stdout, re.M)
@@ -422,6 +444,15 @@ def main():
     for xs, res, wd in extra_runs:
         if res["error"]:
             broken.append(f"extra stream {xs['harness']} failed: {trunc(res['error'], 400)}")
+            if res.get("crash"):
+                cr = res["crash"]
+                kind = xs["harness"] + ":crash:process:" + re.sub(r"[^A-Za-z0-9_.:-]+", "-", cr["msg"])[:80]
+                hit = next((k for k in kf if fnmatch.fnmatchcase(kind, k[0])), None)
+                if hit:
+                    known_hits.setdefault(hit[0], (hit[1], dict(kind=kind)))
+                else:
+                    violations.append((kind, "the process running the real code died or hung: " + cr["msg"] + " | " + " | ".join(cr["stack"]),
+                                       cr["ops"], seed))
             continue
         rep = res["report"]
         evaluations += rep.get("evaluations", 0)
